@@ -231,3 +231,22 @@ Proof.
   - pose proof (PE _ _ _ E) as Hq. destruct (IH q Hq ltac:(lia)) as [fs Hfs]. exists (fs ++ [f]). econstructor; eauto.
   - exists ([] ++ [f]). econstructor; [exact E | constructor].
 Qed.
+
+(* the frame column of the stack table only ever holds frame indices the caller passed in *)
+Lemma handle_for_stack_frames_in tbl f p n :
+  (forall k, In k tbl -> snd k < n) -> f < n -> forall k, In k (snd (handle_for_stack tbl f p)) -> snd k < n.
+Proof.
+  intros H Hf k Hk. unfold handle_for_stack in Hk. destruct (intern stack_key_eqb tbl (p, f)) as [i l] eqn:E. cbn [snd] in Hk.
+  destruct (intern_spec stack_key_eqb stack_key_eqb_spec _ _ _ _ E) as [_ [_ [Hi|[_ [Hl _]]]]].
+  - unfold intern in E. destruct (index_of stack_key_eqb (p, f) tbl); inversion E; subst; [apply H; exact Hk | lia].
+  - subst l. apply in_app_or in Hk. destruct Hk as [Hk|[<-|[]]]; [apply H; exact Hk | exact Hf].
+Qed.
+Lemma stack_of_frames_frames_in : forall frames tbl p n,
+  (forall k, In k tbl -> snd k < n) -> (forall f, In f frames -> f < n) ->
+  forall k, In k (snd (stack_of_frames tbl p frames)) -> snd k < n.
+Proof.
+  induction frames as [|f frames IH]; intros tbl p n H Hf k Hk; cbn [stack_of_frames] in Hk; [apply H; exact Hk|].
+  destruct (handle_for_stack tbl f p) as [h tbl1] eqn:E.
+  apply (IH tbl1 (Some h) n); [|intros x Hx; apply Hf; right; exact Hx | exact Hk].
+  intros k' Hk'. pose proof (handle_for_stack_frames_in tbl f p n H (Hf f (or_introl eq_refl)) k') as G. rewrite E in G. apply G. exact Hk'.
+Qed.
